@@ -6,14 +6,8 @@ open Qlibc Qlibc.Tree
 
 namespace Driver.Tree
 
-def lower (c : UInt8) : UInt8 := if 65 ≤ c && c ≤ 90 then c + 32 else c
-
-/-- the comparators the harness can install with `qtreetbl_set_compare` -/
-def cmpOf (mode : Nat) : Bytes → Bytes → Ordering :=
-  match mode with
-  | 1 => fun a b => byteCmp b a                               -- reverse order
-  | 2 => fun a b => byteCmp (a.map lower) (b.map lower)       -- case-folding: identifies keys
-  | _ => byteCmp
+/-- the comparators the harness can install (proved total preorders: `harnessCmp_ok`) -/
+def cmpOf (mode : Nat) : Bytes → Bytes → Ordering := harnessCmp mode
 
 structure St where
   tbl : Tbl Bytes Bytes := Tbl.init
